@@ -49,6 +49,7 @@ Inductive kinput :=
 | KinCsrCsr (n_row n_col : Z) (a b : csr Z) (count : Z)   (* count: what _csr_csr_count_nnz returned *)
 | KinCooCoo (n_row n_col : Z) (a b : csr Z)               (* COO operands as (data, coords[1], indptr) *)
 | KinCooNd (rows cols data : list Z) (array2 : dense Z) (out_rows out_cols : Z)
+| KinCscNdSparse (m n p : Z) (a : csr Z) (b : dense Z)     (* a: CSC triple of the m x n left operand *)
 | KinSpec (a b : dense Z).                                (* kernels compared with the Spec only *)
 
 Definition kres_csr_sarr (n_row n_col : Z) (r : kres (csr Z)) : sarr :=
@@ -72,7 +73,10 @@ Definition csr_dense (n_row n_col : Z) (a : csr Z) : dense Z :=
 
 (* 0 ok | 1 impl <> model, impl = Spec (model unfaithful) | 2 impl <> model and impl <> Spec
    | 3 the pre-count kernel differs from the model's | 4 model <> Spec although the model returned
-   | 5 (Spec-only kernels) impl <> Spec *)
+   | 5 (Spec-only kernels) impl <> Spec
+   | 6 _dot_csc_ndarray_sparse: the model ends with an unwritten buffer tail (the pre-count exceeds the
+     number of cells written): the implementation returns uninitialised memory
+   | 7 _dot_csc_ndarray_sparse: implementation = model = Spec, but the columns' row indices are unsorted *)
 Definition judge_kernel (c : kinput * sarr) : Z :=
   let '(inp, impl) := c in
   match inp with
@@ -102,6 +106,17 @@ Definition judge_kernel (c : kinput * sarr) : Z :=
              | KFuel => SHang | _ => SOther end in
     if sarr_eqb impl m then 0
     else match impl with SDense _ | SHang => 2 | _ => 1 end
+  | KinCscNdSparse m n p a b =>
+    let sp := spec_flat (mkDense [m; n] (mat_flat Z m n (fun i j => csr_to_mat a j i))) b in
+    match dot_csc_ndarray_sparse Z 0 Z.add Z.mul Z.eqb m n p a (mat_fn p (d_flat b)) with
+    | KOk r =>
+      let g := mkGCXS [m; p] [1] (m_data r) (m_indices r) (m_indptr r) 0 in
+      if sarr_eqb impl (SGcxs g) then
+        if negb (same_as_spec impl sp) then 4 else if gcxs_wfb g then 0 else 7
+      else if same_as_spec impl sp then 1 else 2
+    | KTail => 6
+    | _ => 4
+    end
   | KinSpec a b => if same_as_spec impl (spec_flat a b) then 0 else 5
   end.
 
